@@ -35,7 +35,7 @@ LEVEL = 'fault_enumeration'
 RULE = (
     'Hypothesis-generated histories of 4-8 operations {publish(project, version, dir|zip), train(project, release|latest, '
     '1-3 states, trigger|explicit tag), read(latest|explicit), prune(generation directory)} over 2 projects and a pool of '
-    '11 PEP 440 versions (pre/post/dev releases, equal spellings, 1.10 vs 1.2) on a posix registry, each publish/train '
+    '16 PEP 440 versions (pre/post/dev releases below and above final ones, equal spellings, 1.10 vs 1.2) on a posix registry, each publish/train '
     'optionally carrying a crash point (k-th file-system event, j bytes into a write); histories starting with the scripted '
     'shape publish, train, train, prune(inner), train (numbering over a gap); the same histories without '
     'crash/prune on the volatile registry; plus the exhaustive sweep of every crash point (every k, j in {0, 1, half, '
@@ -82,7 +82,11 @@ VERSIONS = [
     ['1.0.1', 6],
     ['1.2', 7],
     ['1.10', 8],
-    ['2.0', 9],
+    ['2.0.dev1', 9],
+    ['2.0rc1', 10],
+    ['2.0', 11],
+    ['2.0.post1', 12],
+    ['2.1.dev1', 13],
 ]
 RANK = {v: r for v, r in VERSIONS}
 ANY = '*'
@@ -129,7 +133,12 @@ def history(draw, regkind='posix', gap=False):
             if above and len(shadow[p]) < 3 and (not below or draw(st.integers(0, 9)) < 7):
                 version = draw(st.sampled_from(above[:4]))
             else:
-                version = draw(st.sampled_from(below or above))
+                # half of the refused candidates sit right under the top: between the two highest published versions
+                # (a final release under a published pre-/dev-release of the next one, seeded change C05-8)
+                second = max([r for r in shadow[p] if r < top], default=-1)
+                between = [v for v, r in VERSIONS if second < r < top]
+                pick = between if between and draw(st.booleans()) else (below or above)
+                version = draw(st.sampled_from(pick))
             if RANK[version] > top:
                 shadow[p].append(RANK[version])
             op.update(v=version, kind=draw(st.sampled_from(['dir', 'zip'])))
